@@ -40,6 +40,15 @@ const USES: &[(&str, &str, &str)] = &[
     ("oldvalue", "local _u = oldvalue", "deprecated-expression"),
     ("lib", "local _u = lib.oldfield", "deprecated-field"),
     ("depr_param", "depr_param(1)", "deprecated-param"),
+    // call statements whose arguments contain statements of their own (callbacks): the called name is still the first
+    // identifier of the statement, whatever is read while the arguments are visited
+    ("coroutine", "coroutine.create(function()\n    print(1)\n  end)", "must_use-callback"),
+    ("coroutine", "coroutine.wrap(function(a)\n    local b = a\n    print(b)\n  end)", "must_use-callback-2"),
+    ("string", "string.format(\"%s\", (function()\n    print(1)\n    return 1\n  end)())", "must_use-callback-call"),
+    ("math", "math.max(1, (function() undefined_g() return 2 end)())", "must_use-callback-inline"),
+    ("tostring", "tostring(function() print(1) end)", "must_use-callback-bare"),
+    ("table", "table.insert(t, function()\n    print(t)\n  end)", "observes-callback"),
+    ("select", "select(1, function() print(1) end)", "must_use-callback-select"),
     // the same uses through a parenthesised root / with trivia after the root: whatever a lint makes of
     // them, it must make nothing of them while the root is bound by the script
     ("math", "local _u = (math).floor(\"x\")", "paren-root-type"),
